@@ -188,6 +188,120 @@ theorem session_close (c : Cfg) (items : List Item) (orc : List Bool) (hwf : ∀
   have h := runFrom_spec c items 0 (init c orc) h0.1 h0.2 hwf
   exact (close_records_end c _ h.runs_ne).1
 
+/-- PINS.  The literal values of the constants of `delphin/ace.py` (and of `util.SExpr`, `itsdb`) that
+Model.lean, the stand-in and the oracle hand-code an equivalent of, as read from the live code objects on
+every run (`harness/c19.py: pins()`; `None`, docstrings and log/exception message texts left out).
+A change to any of them stops this theorem from checking, which the check reports as a broken proof
+obligation and then searches for a failing input.  Which definition mirrors what:
+* `c19InitConsts`, `c19InitDefaults`, `c19TransfererInitConsts`, `c19GeneratorInitConsts`, `c19ClassTables`,
+  `c19AceVersionConsts`: `usesTsdb` (tsdb protocol iff `tsdbinfo` ∧ version ≥ 0.9.24; the transferer passes
+  `tsdbinfo=False`), `Cfg` defaults, the options the stand-in is started with, its `-V` answer;
+* `c19OpenConsts`: `openProc` / `Run` (one record per `_open`, key `run-id`); `c19CloseConsts`: `closeProc`
+  (`end`), run notes drained;
+* `c19ResultLinesConsts`, `c19ReadRunInfoConsts`, `c19TerminiPatterns`: `readLines`, `Line.runNote`,
+  `Line.hits`, `applyNotes`, the `Terminus` classification;
+* `c19SendConsts`: `wire` (one line per input); `c19InteractConsts`: the skipped response of `interact`
+  (refusal note, `SKIP: `), `Resp.input`; `c19ProcessItemConsts`: oracle clauses on `keys`/`task`;
+* `c19ValidateNames`, `c19PossibleMrsConsts`: `validate`, `strip`, `pmScan`, `possibleMrs` (brackets `[` `]`);
+* `c19MakeResponseConsts`: `Cls`, `baseResp` (prefixes and their lengths 6/9/7, the keys they feed);
+* `c19ParserReceiveConsts`, `c19TransfererReceiveConsts`, `c19GeneratorReceiveConsts`: `decode` (default
+  protocol), `genResults` (`DTREE = ` 8, `MRS = ` 6, the two option names), harness `_line_result`;
+* `c19TsdbReceiveConsts`, `c19GeneratorTsdbReceiveConsts`: lines joined by one blank (`decode` flattens tokens),
+  `generatorTsdbTermini`;
+* `c19SexprDataConsts`, `c19TsdbResponseConsts`: `sexprData` (`(`, the `:error` pair, length 2), `tsdbFold`,
+  `kPInput`…`kSurface`, `fixSurface`;
+* `c19SExprParseConsts`, `c19SExprNumberConsts`, `c19SExprStringConsts`, `c19SExprSymbolConsts`: `sxLoop`,
+  `Tok` and the harness tokenizer;
+* `c19TaskSelectors`: which profile column is the input of each task (oracle's notion of an input). -/
+theorem c19_pins :
+    c19InitConsts =
+      ["ace", "(0, 9, 14)", "--tsdb-notes", "(0, 9, 24)", "--tsdb-stdout", "--report-labels", "--itsdb-forest", "-1"]
+    ∧
+    c19InitDefaults =
+      ["(None, None, None, True, False, None)", "(None, None, None, True, False, None)", "(None, None, None, None)", "(None, None, None, True, None)", "(None)", "(None)"]
+    ∧
+    c19TransfererInitConsts =
+      ["False", "(cmdargs, executable, env, tsdbinfo, full_forest, stderr)"]
+    ∧
+    c19GeneratorInitConsts =
+      ["False", "(cmdargs, executable, env, tsdbinfo, full_forest, stderr)"]
+    ∧
+    c19OpenConsts =
+      ["-g", "True", "(stdin, stdout, stderr, env, universal_newlines)", "1", "ACE {} via PyDelphin v{}", ".", " ", "(run-id, application, environment, user, host, os, start)", "0"]
+    ∧
+    c19ResultLinesConsts =
+      ["0", "", "NOTE: tsdb run:", "1"]
+    ∧
+    c19ReadRunInfoConsts =
+      ["NOTE: tsdb run:", "15", ":application", ":"]
+    ∧
+    c19SendConsts =
+      ["\n"]
+    ∧
+    c19TsdbReceiveConsts =
+      [" "]
+    ∧
+    c19InteractConsts =
+      ["NOTE: PyDelphin could not validate the input and refused to send it to ACE", "SKIP: ", "input"]
+    ∧
+    c19ProcessItemConsts =
+      ["keys", "task"]
+    ∧
+    c19CloseConsts =
+      ["end", "NOTE: tsdb run:"]
+    ∧
+    c19ValidateNames =
+      ["(isinstance, str, strip)()", "(_possible_mrs)()", "(_possible_mrs)()"]
+    ∧
+    c19ParserReceiveConsts =
+      ["(mrs, derivation)", " ; ", "results"]
+    ∧
+    c19TransfererReceiveConsts =
+      ["mrs", "results"]
+    ∧
+    c19GeneratorReceiveConsts =
+      ["--show-realization-trees", "--show-realization-mrses", "0", "SENT", "1", "DTREE = ", "8", "derivation", "MRS = ", "6", "mrs", "results"]
+    ∧
+    c19GeneratorTsdbReceiveConsts =
+      ["\\(:results \\.", "(termini)", " "]
+    ∧
+    c19AceVersionConsts =
+      ["(0, 9, 0)", "-V", "True", "(universal_newlines)", "ACE version ([.0-9]+)", "1", "."]
+    ∧
+    c19PossibleMrsConsts =
+      ["(-1, -1)", "0", "[", "1", "]", "-1", ""]
+    ∧
+    c19MakeResponseConsts =
+      ["(NOTES, WARNINGS, ERRORS, run, input, surface, results)", "NOTE: ", "NOTES", "6", "WARNING: ", "WARNINGS", "9", "ERROR: ", "ERRORS", "7", "SENT: ", "SKIP: ", "surface"]
+    ∧
+    c19SexprDataConsts =
+      ["(", "(:error, incomplete output from ACE)", "", "2"]
+    ∧
+    c19TsdbResponseConsts =
+      [":p-input", "tokens", "initial", ":p-tokens", "internal", ":results", ":derivation", "derivation", ":mrs", "mrs", ":surface", "surface", "1", "results", ":chart", "chart"]
+    ∧
+    c19SExprParseConsts =
+      ["", "(", "1", "-", "\"", ")", "3", ".", "0", "2", "-1"]
+    ∧
+    c19SExprNumberConsts =
+      ["1", ".eE", ".", "eE", "+-"]
+    ∧
+    c19SExprStringConsts =
+      ["1", "\"", "\\", "2"]
+    ∧
+    c19SExprSymbolConsts =
+      ["(pos)", "0", "\\\\([\"\\\\])", "\\1", "\\\\([{}])", "\\1", "(?:[^\"\\s\\(\\)\\[\\]\\{\\}\\\\;]+|\\\\.)+", "32", "\"\\s\\(\\)\\[\\]\\{\\}\\\\;"]
+    ∧
+    c19ClassTables =
+      ["(None, ())", "(parse, ())", "(transfer, ())", "(generate, (-e, --tsdb-notes))", "None"]
+    ∧
+    c19TerminiPatterns =
+      ["^$/32", "^$/32", "^$/32", "NOTE: tsdb parse: /32", "\\(:results \\./32"]
+    ∧
+    c19TaskSelectors =
+      ["generate:(result, mrs)", "parse:(item, i-input)", "transfer:(result, mrs)"] := by
+  refine ⟨?_, ?_, ?_, ?_, ?_, ?_, ?_, ?_, ?_, ?_, ?_, ?_, ?_, ?_, ?_, ?_, ?_, ?_, ?_, ?_, ?_, ?_, ?_, ?_, ?_, ?_, ?_, ?_, ?_⟩ <;> rfl
+
 /-! ## the hypothesis is needed, and the model is not vacuous (concrete sessions, checked by evaluation) -/
 
 def blankL : Line := { blank := true, empty := true }
